@@ -1,10 +1,126 @@
 import KawinV.Proto
-/-! driver verbs for C11 (stub: no verbs yet) -/
+import KawinV.Model.Permute
+import KawinV.Model.DtRules
+/-! driver verbs for C11: element re-ordering wrappers and per-phase step rules (Float instance) -/
 namespace KawinV.Drv.C11
-open KawinV.Proto
+open KawinV.Proto KawinV.Permute KawinV.DtRules
+
+def nlist (xs : List Nat) : String := " ".intercalate (toString xs.length :: xs.map toString)
+def names : P (List String) := lst tok
+def nats : P (List Nat) := lst nat
+
+/-- a matrix: `<rows> <row>…` each row a float list -/
+def mat : P (List (List Float)) := lst flts
+def mlist (m : List (List Float)) : String := " ".intercalate (toString m.length :: m.map flist)
+
+/-- perm.argsort.str names → argsort, unsortIdx -/
+def argsortStr : P String := do
+  let ks ← names
+  pure s!"{nlist (argsort ks)} {nlist (unsortIdx ks)}"
+
+/-- perm.argsort.int keys → argsort, unsortIdx -/
+def argsortInt : P String := do
+  let ks ← lst int
+  pure s!"{nlist (argsort ks)} {nlist (unsortIdx ks)}"
+
+/-- perm.argsort.flt keys → argsort, unsortIdx -/
+def argsortFlt : P String := do
+  let ks ← flts
+  pure s!"{nlist (argsort ks)} {nlist (unsortIdx ks)}"
+
+/-- perm.take idx a → a[idx] -/
+def takeV : P String := do
+  let idx ← nats; let a ← flts
+  pure (flist (take idx a))
+
+/-- perm.roundtrip names a → a[sort], a[sort][unsort], a[unsort][sort] -/
+def roundtrip : P String := do
+  let ks ← names; let a ← flts
+  let s := sortIdx ks; let u := unsortIdx ks
+  pure s!"{flist (take s a)} {flist (take u (take s a))} {flist (take s (take u a))}"
+
+/-- perm.vec names x d → sorted names, x aligned with them (what the backend is handed), and
+`wrapVec` with the backend answering `d` -/
+def vec : P String := do
+  let ks ← names; let x ← flts; let d ← flts
+  let sn := take (sortIdx ks) ks
+  let sx := take (sortIdx ks) x
+  pure s!"{nlist (sortIdx ks)} {flist sx} {flist (wrapVec (fun _ _ => d) ks x)} {" ".intercalate sn}"
+
+/-- perm.mat names x D → `wrapMat` with the backend answering `D` -/
+def matV : P String := do
+  let ks ← names; let x ← flts; let d ← mat
+  pure (mlist (wrapMat (fun _ _ => d) ks x))
+
+/-- perm.ref ref solutes x d → x aligned with the sorted solutes, `wrapVecRef`, `wrapVecFull` with the
+backend answering `d` (all components, alphabetical) -/
+def refV : P String := do
+  let r ← tok; let ks ← names; let x ← flts; let d ← flts
+  let sx := take (sortIdx ks) x
+  pure s!"{flist sx} {flist (wrapVecRef (fun _ _ _ => d) r ks x)} {flist (wrapVecFull (fun _ _ _ => d) r ks x)}"
+
+/-- perm.matvec D x → D·x -/
+def matvec : P String := do
+  let d ← mat; let x ← flts
+  pure (flist (matVec d x))
+
+def site : P Site := do
+  let k ← nat
+  match k with
+  | 0 => pure .bulk | 1 => pure .disl | 2 => pure .gb | 3 => pure .edge | 4 => pure .corner
+  | _ => failure
+
+def phase : P (Phase Float) := do
+  let id ← nat; let s ← site
+  let psd ← flts; let size ← flts; let bounds ← flts; let growth ← flts; let dissIdx ← nat
+  let nucPrev ← flt; let nucCur ← flt; let rcPrev ← flt; let rcCur ← flt; let dG ← flt; let Rnuc ← flt
+  let vmBeta ← flt; let areaFactor ← flt; let volumeFactor ← flt; let gbRemoval ← flt; let gbk ← flt
+  let parents ← nats; let x ← flts
+  pure { id, site := s, psd, size, bounds, growth, dissIdx, nucPrev, nucCur, rcPrev, rcCur, dG, Rnuc,
+         vmBeta, areaFactor, volumeFactor, gbRemoval, gbk, parents, x }
+
+def cfg : P (Cfg Float) := do
+  let checkPSD ← bool; let checkNuc ← bool; let checkTemp ← bool; let checkRcrit ← bool; let checkVol ← bool
+  let minNucRate ← flt; let maxNucChange ← flt; let maxNonIsoDT ← flt; let maxRcritChange ← flt
+  let maxVolChange ← flt; let dtScale ← flt; let binRatio ← flt
+  pure { checkPSD, checkNuc, checkTemp, checkRcrit, checkVol, minNucRate, maxNucChange, maxNonIsoDT,
+         maxRcritChange, maxVolChange, dtScale, binRatio }
+
+def siteCfg : P (SiteCfg Float) := do
+  let bulkN0 ← flt; let dislN0 ← flt; let gbN0 ← flt; let edgeN0 ← flt; let cornerN0 ← flt
+  let NA ← flt; let vmAlpha ← flt
+  pure { bulkN0, dislN0, gbN0, edgeN0, cornerN0, NA, vmAlpha }
+
+def stepIn : P (StepIn Float) := do
+  let n ← nat; let tPrev ← flt; let tCur ← flt; let finalTime ← flt; let Tprev ← flt; let Tcur ← flt
+  let vmAlpha ← flt
+  pure { n, tPrev, tCur, finalTime, Tprev, Tcur, vmAlpha }
+
+/-- kwn.step cfg sitecfg stepin phases →
+    dtPSD dtNuc dtTemp dtRcrit dtVolume dtVolumeOld getDt getDtOld sites(list) -/
+def kwnStep : P String := do
+  let c ← cfg; let sc ← siteCfg; let s ← stepIn; let phs ← lst phase
+  let dtPrev := dtPrevOf s
+  let dtMax := s.finalTime - s.tCur
+  let out := [dtPSD c s.n s.Tprev s.Tcur dtMax phs, dtNuc c s.n dtPrev dtMax phs,
+              dtTemp c s.n s.Tprev s.Tcur dtPrev dtMax, dtRcrit c s.n dtPrev dtMax phs,
+              dtVolume c s.vmAlpha dtMax phs, dtVolumeOld c s.vmAlpha dtMax phs,
+              getDt c s phs, getDtOld c s phs]
+  let summary := stepSummary c sc s phs
+  pure s!"{flist out} {flist summary.2}"
 
 def handle (verb : String) : Option (P String) :=
   match verb with
+  | "perm.argsort.str" => some argsortStr
+  | "perm.argsort.int" => some argsortInt
+  | "perm.argsort.flt" => some argsortFlt
+  | "perm.take" => some takeV
+  | "perm.roundtrip" => some roundtrip
+  | "perm.vec" => some vec
+  | "perm.mat" => some matV
+  | "perm.ref" => some refV
+  | "perm.matvec" => some matvec
+  | "kwn.step" => some kwnStep
   | _ => none
 
 end KawinV.Drv.C11
